@@ -135,6 +135,20 @@ def judge(t):
     # 3c. ground truth: with nothing injected, the first source that (by the scenario) holds a healthy copy supplies it
     if not t.world.fired and not scn.get('inject') and not scn.get('alias') and not scn.get('second') and t.second is None:
         for name, al in sorted(byname.items()):
+            if name in scn.get('files', {}) and name in scn['modules'] and not scn.get('realfs'):
+                # a file holding several modules: when all of them are healthy (in the spec and in every copy held by a
+                # source) the first source holding the file supplies it as a whole
+                mods_ = scn['files'][name]
+                if not all(m_ in scn['modules'] and scn['modules'][m_].get('variant', 'ok') == 'ok' for m_ in mods_):
+                    continue
+                if any((h_.get('variants') or {}) or h_.get('o', 'ok') != 'ok' or 'text' in h_ for s_ in scn.get('sources', ()) for n_, h_ in s_.get('holds', {}).items() if n_ == name):
+                    continue
+                holders = [i for i, s_ in enumerate(scn.get('sources', ())) if name in s_.get('holds', {})]
+                got = [a['src'] for a in al if a['ok']]
+                if holders and got[:1] != holders[:1]:
+                    V('C08.3-source-order', 'source %d is the first to hold the file of %s (modules %s, all healthy), but it was taken from %s' % (
+                        holders[0], name, mods_, got[:1] or 'nowhere'), what='first-holder-ground-truth-file')
+                continue
             if name not in scn['modules'] or scn['modules'][name].get('variant', 'ok') != 'ok' or name in scn.get('files', {}):
                 continue
             if any(name in v_ for v_ in scn.get('files', {}).values()):
